@@ -173,7 +173,7 @@ package cluster
 //@   modifies nothing
 //@ func (*RaftCluster).HandleStoreHeartbeat
 //@   props C14
-//@   requires wfCluster(c) && stats != nil && c.opt != nil && c.hotStat != nil
+//@   requires wfCluster(c) && stats != nil
 //@   atlock c.RWMutex havoc c.core.Stores.stores[*], all core.StoreInfo.*, all metapb.Store.* : wfCluster(c)
 //@   at PutStore 1 assert [writes-back-the-served-lifecycle-state] held(c.RWMutex) && in(c.core.Stores.stores, ite(arg0.meta == nil, 0, arg0.meta.Id)) && arg0.meta != nil && arg0.meta.State == storeAt(c, arg0.meta.Id).meta.State && arg0.meta.PhysicallyDestroyed == storeAt(c, arg0.meta.Id).meta.PhysicallyDestroyed && arg0.meta.Address == storeAt(c, arg0.meta.Id).meta.Address
 //@   modifies *
